@@ -33,7 +33,7 @@ fn add_completers(p: &mut P, which: &[String]) {
             }
         }
         P::Cmd { inner, .. } => add_completers(&mut inner.p, which),
-        P::Seq(v) | P::Alt(v) | P::Adj(v) => v.iter_mut().for_each(|x| add_completers(x, which)),
+        P::Seq(v) | P::Alt(v) | P::Choice(v) | P::Adj(v) => v.iter_mut().for_each(|x| add_completers(x, which)),
         P::Optional(x, _) | P::Many(x, _) | P::Some_(x, _) | P::Collect(x, _) | P::Count(x) | P::Last(x) | P::Fallback(x, _, _) | P::FallbackWith(x, _) | P::Guard(x, _) | P::Parse(x, _) | P::Map(x, _) | P::Hide(x) | P::HideUsage(x) | P::CustomUsage(x, _) | P::GroupHelp(x, _) | P::WithGroupHelp(x, _) => add_completers(x, which),
         _ => {}
     }
@@ -51,7 +51,7 @@ pub fn build_unit(u: &Unit) -> Opts {
             }
             match p {
                 P::Cmd { inner, .. } => swap(&mut inner.p),
-                P::Seq(v) | P::Alt(v) | P::Adj(v) => v.iter_mut().for_each(swap),
+                P::Seq(v) | P::Alt(v) | P::Choice(v) | P::Adj(v) => v.iter_mut().for_each(swap),
                 P::Optional(x, _) | P::Many(x, _) | P::Some_(x, _) | P::Hide(x) | P::FallbackWith(x, _) | P::Complete(x, _, _) => swap(x),
                 _ => {}
             }
